@@ -392,3 +392,21 @@ Theorem C01_extra_field_subparser_roundtrip_partial : forall depth a name l0 ls 
              (Ok (upd_fields a (add_extra (a_fields a) name (l0 ++ joined 10 ls)), None), s') /\ rest s' = post /\ stk s' = fr :: k.
 Proof. exact p_extra_roundtrip. Qed.
 Print Assumptions C01_extra_field_subparser_roundtrip_partial.
+
+(* CONTIG: "CONTIG      join(ACCESSION:h..t)" is read back as the accession and
+   the zero-based region (untilByte(':'), the two integers, the closing
+   parenthesis), for an accession without colon and coordinates within int64;
+   contig_text is what GenBank.String writes after the field name *)
+From GTS Require Import ContigRT.
+Theorem C01_contig_subparser_roundtrip_partial : forall depth a accn h t post o e ap fr k,
+  zlen n_CONTIG <= depth -> Forall (fun c => negb (c =? 58) = true) accn ->
+  0 <= h + 1 <= int64_max -> 0 <= t <= int64_max ->
+  exists s', p_contig depth a
+               (mkst (n_CONTIG ++ repeat_byte 32 (depth - zlen n_CONTIG) ++ contig_text accn h t ++ post) o e ap (fr :: k)) =
+             (Ok (upd_fields a (set_contig (a_fields a) (accn, h, t)), None), s') /\ rest s' = post /\ stk s' = fr :: k.
+Proof. exact p_contig_roundtrip. Qed.
+Print Assumptions C01_contig_subparser_roundtrip_partial.
+
+Example C01_contig_text_is_written : forall x accn h t,
+  contig_show (x :: accn, h, t) = contig_text (x :: accn) h t.
+Proof. reflexivity. Qed.
